@@ -200,6 +200,11 @@ def hash_file(
         if meta is not None and hash_info is not None and hash_info.name == name:
             return meta, hash_info
 
+    if state and info is None:
+        # stat before hashing, so that the state entry saved below describes the
+        # file as it was when it was read, not as it is after hashing
+        info = fs.info(path)
+
     size = info.get("size") if info else None
     _callback = callback
     # never initialize callback if it's never going to be used
